@@ -229,7 +229,9 @@ def fail_branch(ctx: Ctx):
             c = cond_in_loop(ctx, cl.fn, cl.loop, hfs[0])
             exa = kwarg(hfs[0], 'ex', 0)
             ok2 = equivalent(c, fail) and isinstance(exa, ast.Name) and exa.id == cl.res_var \
-                and g.dominates(g.primary(fcomp[0]), g.primary(hfs[0]))
+                and (g.dominates(g.primary(fcomp[0]), g.primary(hfs[0]))
+                     # or: some completion lies on every path to it, and (conditions being equal) on a failure path that is the one with None
+                     or g.must_pass(header, [g.primary(x) for x in comps], [g.primary(hfs[0])], exc=False))
         yield ctx.ob('C10.FAIL-BRANCH', ok2, cl.fn, hfs[0] if hfs else cl.loop, 'then handle_failure(ex=<the outcome>)',
                      '' if ok2 else 'handle_failure is not called with the task\'s own exception after the task was completed')
         # success completion carries the outcome as result_meta
@@ -615,25 +617,62 @@ def wait_timeout(ctx: Ctx):
         call = cl.loop.iter
         t = kwarg(call, 'timeout_seconds', 0)
         g = ctx.cfg(cl.fn)
-        e = t
-        if isinstance(t, ast.Name):
-            host = cl.fn
-            found = None
-            f = host
-            while f is not None and found is None:
-                for n in walk_local(f.node):
-                    if isinstance(n, ast.Assign) and len(n.targets) == 1 and isinstance(n.targets[0], ast.Name) and n.targets[0].id == t.id:
-                        found = n.value
-                f = f.parent
-            e = found
+        def values_of(x: ast.AST, f, depth: int = 0) -> list:
+            """Every expression the name may stand for: assignments in f or an enclosing function; for a parameter of a
+            local closure, its default and what each call site passes."""
+            if not isinstance(x, ast.Name) or depth > 4:
+                return [x]
+            h = f
+            while h is not None:
+                params = h.node.args.posonlyargs + h.node.args.args + h.node.args.kwonlyargs
+                if x.id in [a.arg for a in params]:
+                    out = []
+                    pos = [a.arg for a in h.node.args.posonlyargs + h.node.args.args]
+                    dflt = None
+                    if x.id in pos:
+                        i = pos.index(x.id) - (len(pos) - len(h.node.args.defaults))
+                        if i >= 0:
+                            dflt = h.node.args.defaults[i]
+                    else:
+                        kws = [a.arg for a in h.node.args.kwonlyargs]
+                        dflt = h.node.args.kw_defaults[kws.index(x.id)]
+                    omitted = False
+                    sites = 0
+                    for caller in ctx.P.all_functions():
+                        for c in calls_in(caller.node):
+                            if h.qualname in ctx.P.resolve_call(c, caller, by_name=False):
+                                sites += 1
+                                v = kwarg(c, x.id, pos.index(x.id) if x.id in pos else None)
+                                if v is None:
+                                    omitted = True
+                                else:
+                                    out.extend(values_of(v, caller, depth + 1))
+                    if (omitted or not sites) and dflt is not None:
+                        out.extend(values_of(dflt, h.parent, depth + 1) if h.parent is not None else [dflt])
+                    elif omitted or not sites:
+                        out.append(None)
+                    return out
+                assigns = [n.value for n in walk_local(h.node) if isinstance(n, ast.Assign) and len(n.targets) == 1
+                           and isinstance(n.targets[0], ast.Name) and n.targets[0].id == x.id]
+                if assigns:
+                    out = []
+                    for v in assigns:
+                        out.extend(values_of(v, h, depth + 1))
+                    return out
+                h = h.parent
+            return [None]
 
         def finite(x):
+            if x is None:
+                return False
             if isinstance(x, ast.Constant):
                 return isinstance(x.value, (int, float)) and not isinstance(x.value, bool) and x.value > 0
             if isinstance(x, ast.IfExp):
                 return finite(x.body) and finite(x.orelse)
             return False
-        ok = e is not None and finite(e)
+        vals = values_of(t, cl.fn) if t is not None else [None]
+        e = next((v for v in vals if not finite(v)), vals[0] if vals else None)
+        ok = bool(vals) and all(finite(v) for v in vals)
         yield ctx.ob('C11.WAIT-TIMEOUT', ok, cl.fn, call, 'runner.wait(timeout_seconds=<finite positive constant>)',
                      '' if ok else f'runner.wait is called with timeout `{src(e) if e is not None else "?"}`: with an unbounded wait a task process that is '
                      'killed outright as the last executing task is never noticed and run_tasks hangs')
